@@ -38,7 +38,23 @@ def c15_ok (subj new R : Nat) (forged : Bool) (failH : Option Nat) (res : String
   if !forged && failH.all (fun h => !reqs.contains h) && d ≥ 1 && res != "ok" then some "c15_complete" else
   none
 
+/-- the candidate arrives through Syncer.Head: same acceptance rule, same requests as `syncerVerify` -/
+def evalC15HeadPath (ins outs : List String) : Verdict :=
+  match kvNat? ins "subj", kvNat? ins "new", kvNat? ins "R", kvNat? ins "forged", kv? outs "head", (kv? outs "requests").bind natList?, kvNat? outs "local" with
+  | some subj, some new, some R, some forged, some head, some reqs, some lcl =>
+    let tv := c15tv R new (forged == 1)
+    let m := syncerVerify tv (fun _ => true) subj new
+    if forged == 1 && (head == toString new || lcl == new) then .prop "c15_forged_refused" s!"head={head} local={lcl}" else
+    if forged == 1 && (head != toString (m.2.promoted.getLast?.getD subj) || lcl != m.2.promoted.getLast?.getD subj) then
+      .corr "subjective head after a refused candidate" (toString (m.2.promoted.getLast?.getD subj)) s!"{head}/{lcl}" else
+    if forged == 0 && (head != toString new || lcl != new) then .prop "c15_complete" s!"Head()={head} subjective head={lcl}: a candidate with a verifiable path was not accepted (requests={reqs})" else
+    if verify tv subj new == .soft && m.2.requests != reqs then .corr "requests" (toString m.2.requests) (toString reqs) else
+    if verify tv subj new != .soft && !reqs.isEmpty then .prop "c15_only_soft_bifurcates" s!"requests={reqs}" else
+    .ok s!"headpath-{if forged == 1 then "forged" else "ok"}"
+  | _, _, _, _, _, _, _ => .bad "C15 headpath fields"
+
 def evalC15 (ins outs : List String) : Verdict :=
+  if kv? ins "kind" == some "headpath" then evalC15HeadPath ins outs else
   match kvNat? ins "subj", kvNat? ins "new", kvNat? ins "R", kvNat? ins "forged", kvInt? ins "failH",
         kv? outs "res", (kv? outs "requests").bind natList?, (kv? outs "pending").bind natList?, kvNat? outs "storehead" with
   | some subj, some new, some R, some forged, some failH, some res, some reqs, some pend0, some storehead =>
